@@ -40,6 +40,8 @@ def call_planner(labels, chunks, nlabels, merge):
         method, cohorts = fc.find_group_cohorts(lab, chunks, expected_groups=pd.RangeIndex(nlabels), merge=merge)
     except AssertionError:
         return None
+    except Exception as e:  # noqa: BLE001  -- an internal error of the planner is reported with its input, not as a crash of the check
+        return ("raised", f"{type(e).__name__}: {str(e)[:120]}")
     return method, [(sorted(int(x) for x in k), [int(x) for x in v]) for k, v in cohorts.items()]
 
 
@@ -90,6 +92,11 @@ def planner_cases(run, cases):
         res = call_planner(labels, chunks, nlabels, merge)
         nb = math.prod(len(c) for c in chunks)
         run.count(f"pl|{labels}|{chunks}|{nlabels}|{merge}", nb > 1 and res is not None and len(res[1]) > 1)
+        if res is not None and res[0] == "raised":
+            run.violation({"property": "C09", "kind": "find_group_cohorts raised an internal error: " + res[1], "labels": labels,
+                           "chunks": [list(c) for c in chunks], "nlabels": nlabels, "merge": merge,
+                           "how_to_run": "flox.core.find_group_cohorts(np.asarray(labels), chunks, expected_groups=pd.RangeIndex(nlabels), merge=merge)"}, tag="raised")
+            continue
         if res is None:
             if F.active("KF-C09-merged-cohort-key-collision"):
                 run.known("KF-C09-merged-cohort-key-collision", F.describe("KF-C09-merged-cohort-key-collision"))
